@@ -258,16 +258,18 @@ def run_scenario(ws, scn, d, tokens=None, measure_threads=False, trace=False, yi
     holder_proc = None
     holder_sum0 = None
     if scn["holder"] == "exec":
-        for attempt in range(50):
+        t_first = time.time()
+        while True:
             try:
                 holder_proc = subprocess.Popen([str(out)], stdin=subprocess.DEVNULL, stdout=subprocess.DEVNULL)
                 break
             except OSError as e:
                 # ETXTBSY: a child forked by another harness thread still holds the write descriptor
-                # we copied the file with (until it execs); harness-side race, just retry
-                if e.errno != 26 or attempt == 49:
+                # we copied the file with (until it execs); harness-side race, just retry - on a loaded
+                # machine that child may not be scheduled for seconds
+                if e.errno != 26 or time.time() - t_first > 90:
                     raise
-                time.sleep(0.02)
+                time.sleep(0.05)
         time.sleep(0.02)
         holder_sum0 = hashlib.sha256(open(f"/proc/{holder_proc.pid}/exe", "rb").read()).hexdigest()
     elif scn["holder"] == "map":
